@@ -16,6 +16,7 @@ macro_rules! dispatch {
             "C03" => $f(&props::c03::C03, $($arg),*),
             "C04" => $f(&props::c04::C04, $($arg),*),
             "C05" => $f(&props::c05::C05, $($arg),*),
+            "C06" => $f(&props::c06::C06, $($arg),*),
             _ => { eprintln!("unknown property {}", $id); 2 }
         }
     };
@@ -74,6 +75,7 @@ fn main() {
             let id = v["property"].as_str().unwrap_or("").to_string();
             dispatch!(id.as_str(), run_replay, &path)
         }
+        "selftest" => verif::selftest::run(),
         _ => usage(),
     };
     std::process::exit(code);
